@@ -412,7 +412,7 @@ func (c *Ctx) ruleR04e(rule string) {
 				continue
 			}
 		}
-		if name == "combinator.Optional$1" {
+		if c.builtBy("combinator.Optional")[fn] {
 			c.R.Exempt(name, "Optional always adds the empty match and keeps the sub-parser's error for furthest-error reporting (documented: 'returns the parser's matches and an empty match'); sequence.parse consumes such pairs")
 			continue
 		}
@@ -548,4 +548,37 @@ func (c *Ctx) nodeErrPairs(p *pathState, r *ssa.Return, ni, ei int, depth int) [
 		}
 	}
 	return [][2]nilState{{p.eval(r.Results[ni]), p.eval(r.Results[ei])}}
+}
+
+// builtBy: the parser functions an exported constructor hands out: its parser-signature closures, and the methods
+// behind method values it creates (a helper object replacing the closure).
+func (c *Ctx) builtBy(ctor string) map[*ssa.Function]bool {
+	out := map[*ssa.Function]bool{}
+	f := c.P.Func(ctor)
+	if f == nil {
+		return out
+	}
+	for _, an := range f.AnonFuncs {
+		if ssax.IsParserSig(an.Signature) {
+			out[an] = true
+		}
+	}
+	for _, b := range f.Blocks {
+		for _, in := range b.Instrs {
+			mc, ok := in.(*ssa.MakeClosure)
+			if !ok {
+				continue
+			}
+			g := mc.Fn.(*ssa.Function)
+			if g.Synthetic == "" || !ssax.IsParserSig(g.Signature) {
+				continue
+			}
+			for _, call := range ssax.Calls(g) {
+				if sc := call.Common().StaticCallee(); sc != nil && c.P.InLib(sc) && sc.Signature.Recv() != nil {
+					out[sc] = true
+				}
+			}
+		}
+	}
+	return out
 }
